@@ -3,6 +3,7 @@ advance (and at the end of every run) each *ready* part is offered, on a deep
 copy of the whole system, to each downstream neighbour of its holder with the
 real give_part.  Any True is a part that could have moved and did not."""
 import copy
+import math
 
 from . import register
 from .. import instrument
@@ -20,6 +21,8 @@ class LostWake:
         self.copies = 0
         self.n_script = 0
         self.unblock_kinds = {}
+        # float-noise profile: an instant within a few ulp of stored + delay is the same instant
+        self.decimal = bool(ctx.spec.get('decimal'))
 
     def ready_parts(self, env):
         m = self.m
@@ -34,7 +37,10 @@ class LostWake:
                 if dev._output is not None and dev.remaining_parts >= 1:
                     out.append((did, 'out'))
             elif k == 'buffer':
-                if dev._buffer and (now - dev._buffer[0][0]) >= dev.minimum_delay:
+                # ready = the delay has fully elapsed (no rounding allowance: with decimal times the wake-up
+                # is scheduled for stored + delay, which may lie one ulp after an instant that happens to exist)
+                slack = (now - dev._buffer[0][0]) - dev.minimum_delay if dev._buffer else -1
+                if dev._buffer and (slack > 4 * math.ulp(now) if self.decimal else slack >= 0):
                     out.append((did, 'buf'))
         return out
 
